@@ -209,3 +209,78 @@ func VH_C16_unicode() {
 		vAssert("C16.uni.unique_canonical", IsUnique(err) == (strings.ToLower(strings.ToUpper(in)) == want))
 	}
 }
+
+// ---- constraints on fields that are not plain strings ----
+
+type vCaseKIn struct {
+	Code *string
+}
+
+type vCaseK struct {
+	Item
+	N     int64       `sod:"index"`
+	Alias *string     // upper, given through a custom schema (tags of pointer fields are not read)
+	In    *vCaseKIn   // In.Code lower, custom schema
+	Tag   interface{} `sod:"upper"`
+	Low   interface{} `sod:"lower"`
+}
+
+// VH_C16_kinds: the constraint applies "at any nesting depth" whatever the
+// declared kind of the field: a *string (top level and behind a pointer to
+// a struct, constraints declared through FieldDescriptors.Constraint) and an
+// interface{} holding a string are stored in canonical case for every ASCII
+// input, nil pointers stay nil, an update keeps it canonical, and searches on
+// the interface-typed fields are case-insensitive.
+func VH_C16_kinds() {
+	root := vTempDir()
+	db := Open(root)
+	LowercaseNames = false
+	fds := FieldDescriptors(&vCaseK{})
+	vAssert("C16.kinds.setup", fds.Constraint("Alias", Constraints{Upper: true}) == nil && fds.Constraint("In.Code", Constraints{Lower: true}) == nil)
+	vAssert("C16.kinds.create", db.Create(&vCaseK{}, NewCustomSchema(fds, DefaultExtension)) == nil)
+	in := vString("in", vBound("L", 2))
+	a, c := in, in
+	o := &vCaseK{N: 1, Tag: in, Low: in}
+	nilPtrs := vChoice("nilptrs", 2) == 1
+	if !nilPtrs {
+		o.Alias = &a
+		o.In = &vCaseKIn{Code: &c}
+	}
+	vAssert("C16.kinds.insert", db.InsertOrUpdate(o) == nil)
+	if vChoice("reopen", 2) == 1 {
+		vAssert("C16.kinds.close", db.Close() == nil)
+		db = Open(root)
+	}
+	if vChoice("resave", 2) == 1 { // an update that changes another field only
+		got, err := db.GetByUUID(&vCaseK{}, o.UUID())
+		vAssert("C16.kinds.get0", err == nil)
+		if err != nil {
+			return
+		}
+		g := got.(*vCaseK)
+		g.N = 2
+		vAssert("C16.kinds.resave", db.InsertOrUpdate(g) == nil)
+	}
+	got, err := db.GetByUUID(&vCaseK{}, o.UUID())
+	vAssert("C16.kinds.get", err == nil)
+	if err != nil {
+		return
+	}
+	g := got.(*vCaseK)
+	up, lo := vhUpperASCII(in), vhLowerASCII(in)
+	if nilPtrs {
+		vAssert("C16.kinds.nil_stays_nil", g.Alias == nil && g.In == nil)
+	} else {
+		vAssert("C16.kinds.ptr_string_upper", g.Alias != nil && *g.Alias == up)
+		vAssert("C16.kinds.nested_ptr_string_lower", g.In != nil && g.In.Code != nil && *g.In.Code == lo)
+	}
+	ts, ok1 := g.Tag.(string)
+	ls, ok2 := g.Low.(string)
+	vAssert("C16.kinds.interface_upper", ok1 && ts == up)
+	vAssert("C16.kinds.interface_lower", ok2 && ls == lo)
+	// searching the interface-typed fields with the input as it was typed
+	s1 := db.Search(&vCaseK{}, "Tag", "=", in)
+	vAssert("C16.kinds.search_tag", s1.Err() == nil && s1.Len() == 1)
+	s2 := db.Search(&vCaseK{}, "N", ">=", int64(0)).And("Low", "=", in)
+	vAssert("C16.kinds.search_low_and", s2.Err() == nil && s2.Len() == 1)
+}
